@@ -325,6 +325,8 @@ pub struct Driver<'a> {
     pub max_readers: usize,
     /// percent chance (per step without a writer, >= 2 readers open) that the oldest reader is closed
     pub reader_churn: i64,
+    /// number of readers of the deterministic prefix (0: none)
+    pub ladder_n: usize,
     pub hashes: bool,
     pub p_rollback: u32,
 }
@@ -562,7 +564,55 @@ impl<'a> Driver<'a> {
         self.do_op(op_json(t, c, &p, k, 0, "U", 0, "U", 0));
     }
 
+    /// A deterministic prefix ("ladder"): n readers opened on snapshots that lie one or two commits apart, all of
+    /// them open at the same time; then they are closed OLDEST FIRST with a writer commit after every close, the
+    /// remaining readers re-read in full after every commit.  (Registries that lose their order or an entry, release
+    /// bounds that land inside the pending list, pages of the younger readers' snapshots handed out again.)
+    fn ladder(&mut self, n: usize) {
+        let mut commit_some = |d: &mut Self, k: usize| -> bool {
+            for _ in 0..k {
+                let t = match d.begin(true) {
+                    Some(t) => t,
+                    None => return false,
+                };
+                for _ in 0..4 {
+                    d.mutate(t);
+                }
+                if d.end(t, true) != json!(["ok"]) {
+                    return false;
+                }
+                d.commits += 1;
+                d.state_event();
+                for rt in d.readers.clone() {
+                    d.project(rt);
+                }
+            }
+            true
+        };
+        if !commit_some(self, 2) {
+            return;
+        }
+        for i in 0..n {
+            if self.begin(false).is_none() {
+                return;
+            }
+            if !commit_some(self, 1 + i % 2) {
+                return;
+            }
+        }
+        while let Some(oldest) = self.readers.first().cloned() {
+            self.end(oldest, false);
+            if !commit_some(self, 2) {
+                return;
+            }
+        }
+    }
+
     pub fn run(&mut self, len: usize) {
+        if self.ladder_n > 0 && self.presized {
+            let n = self.ladder_n;
+            self.ladder(n);
+        }
         let mut steps = 0usize;
         while steps < len {
             steps += 1;
@@ -770,6 +820,7 @@ fn trace(a: &Args) -> i32 {
             states: a.n("states", 0) != 0,
             max_readers: a.n("max-readers", 2) as usize,
             reader_churn: a.n("reader-churn", 0),
+            ladder_n: a.n("ladder", 0) as usize,
             hashes: a.n("hashes", 0) != 0,
             p_rollback: a.n("p-rollback", 6) as u32,
         };
